@@ -33,10 +33,12 @@ extern size_t g_it_next, g_it_prefix;
                     (!(v)->has_live ==> (v)->live == 0) && ((v)->count == 0 ==> ((v)->total == 0 && !(v)->has_live)) && \
                     (((v)->count == 1 && (v)->has_live) ==> (v)->total == (v)->live))
 
-static inline void vsv_init(vsv* v, size_t block_cap)
+/* default construction: empty.  The real memory of the live block is the object (g_vsv_buf, g_vsv_cap) that the contract
+ * of the function under proof obtains from its precondition (an allocation inside the function could not be named in
+ * loop invariants) */
+static inline void vsv_init(vsv* v)
 {
   v->count = 0; v->total = 0; v->live = 0; v->has_live = 0;
-  __CPROVER_assert(block_cap <= g_vsv_cap, "block buffer of the model is large enough");
   v->buf = g_vsv_buf;
   v->bufcap = g_vsv_cap;
 }
@@ -55,6 +57,13 @@ static inline void vsv_emplace_back(vsv* v, size_t n, char c)
 static inline char* vsv_back_data(vsv* v) { __CPROVER_assert(v->has_live, "back() of the model must be the live block"); return v->buf; }
 /* back().size() */
 static inline size_t vsv_back_size(const vsv* v) { __CPROVER_assert(v->has_live, "back() of the model must be the live block"); return v->live; }
+/* back()[i]: [string.access] requires i <= size(); the element at size() is the terminator */
+static inline char vsv_back_at(const vsv* v, size_t i)
+{
+  __CPROVER_assert(v->has_live, "back() of the model must be the live block");
+  __CPROVER_assert(i <= v->live, "std::string operator[] beyond size() is undefined");
+  return i < v->live ? v->buf[i] : (char)0;
+}
 /* back().resize(k): only shrinking is modelled (growing would need a fill loop) */
 static inline void vsv_back_resize(vsv* v, size_t k)
 {
@@ -74,6 +83,13 @@ static inline void vsv_copy_back(vstr* ret, vsv* v)
 {
   __CPROVER_assert(v->has_live, "back() of the model must be the live block");
   vstr_assign(ret, v->buf, v->live);
+}
+/* std::string(std::move(front())) -- modelled for a container that holds exactly one block (= the concatenation) */
+void vsv_concat_out(vstr* ret, const vsv* v);
+static inline void vsv_front_out(vstr* ret, const vsv* v)
+{
+  __CPROVER_assert(v->count == 1, "model restriction: front() only of a one-block container");
+  vsv_concat_out(ret, v);
 }
 /* reserve(n): capacity model */
 static inline void vsv_reserve(vstr* s, size_t n) { __CPROVER_assert(n <= s->cap, "string capacity (allocation modelled as capacity)"); }
